@@ -5,5 +5,6 @@ VARIABLE rec
 TraceWork == AcceptableWork(rec)
 TraceIsolated == AcceptableIsolation(rec)
 TraceScaling == AcceptableScaling(rec)
+TraceCopy == AcceptableCopy(rec)
 Dummy == T = <<>> /\ le = TRUE /\ d = <<>>
 ====
